@@ -150,7 +150,7 @@ def w_history(ctx, rng, i):
     from menpo.transform.piecewiseaffine.base import TriangleContainmentError, AbstractPWA
     TWINS.clear()
     d = 2 + (i % 5 == 4)
-    K = tx.kinds(d)
+    K = tx.kinds(d) + ["R2LogR2RBF", "R2LogRRBF"]
     if d == 2 and i % 2 == 0:
         kind = ["PiecewiseAffine", "PiecewiseAffine", "PythonPWA", "TransformChain", "ThinPlateSplines"][(i // 2) % 5]
     else:
